@@ -106,6 +106,12 @@ type Conn struct {
 	enc *HPACK
 	dec *HPACK
 
+	// block is how far the read loop is into the header block that is
+	// arriving. It belongs to the connection rather than to a request: a block
+	// is never interleaved with anything else (RFC 7540 6.10), and it has to be
+	// decoded to its end whether or not anybody still waits for the response.
+	block headerBlock
+
 	nextID uint32
 
 	maxWindow     int32
@@ -881,7 +887,20 @@ func (c *Conn) dispatch(fr *FrameHeader) bool {
 		c.finish(r, fr.Stream(), err)
 	}
 
-	return err != nil && errors.Is(err, FlowControlError)
+	if err == nil {
+		return false
+	}
+
+	// A header block that does not decode leaves the dynamic table in a state
+	// the server's does not share: nothing after it can be trusted.
+	var connErr Error
+	if errors.As(err, &connErr) && connErr.frameType == FrameGoAway {
+		c.setLastErr(err)
+
+		return true
+	}
+
+	return errors.Is(err, FlowControlError)
 }
 
 // drained reports whether the server has sent GOAWAY and every request it
@@ -937,22 +956,92 @@ func (c *Conn) skipHeaderBlock(fr *FrameHeader) bool {
 		return false
 	}
 
-	hf := AcquireHeaderField()
-	defer ReleaseHeaderField(hf)
+	b := c.block.open(fr)
 
-	b := fr.Body().(FrameWithHeaders).Headers()
-
-	var err error
-
-	for len(b) > 0 && err == nil {
-		b, err = c.dec.Next(hf, b)
-	}
-
+	err := c.skipFields(fr, b, nil)
 	if err != nil {
-		c.setLastErr(NewGoAwayError(CompressionError, err.Error()))
+		c.setLastErr(err)
 	}
 
 	return err != nil
+}
+
+// headerBlock is the decoding state of a header block that spans frames.
+type headerBlock struct {
+	// carry holds the bytes of a field that the end of a frame cut short; they
+	// go in front of the next fragment.
+	carry []byte
+	// fields counts the fields decoded so far: a dynamic table size update is
+	// only legal before the first one.
+	fields int
+	// regularSeen says a regular field has been decoded, after which a
+	// pseudo-header is malformed.
+	regularSeen bool
+}
+
+// open returns the bytes to decode for fr: what the previous frame of the block
+// left over followed by this frame's fragment. A HEADERS frame starts a block.
+func (hb *headerBlock) open(fr *FrameHeader) []byte {
+	if fr.Type() != FrameContinuation {
+		hb.carry = hb.carry[:0]
+		hb.fields = 0
+		hb.regularSeen = false
+	}
+
+	b := append(hb.carry, fr.Body().(FrameWithHeaders).Headers()...)
+	hb.carry = b[:0]
+
+	return b
+}
+
+// nextField decodes one field of the block fr belongs to. When the frame ended
+// in the middle of a field and a CONTINUATION is still to come, it keeps the
+// bytes of that field for the next frame and returns no bytes, an empty field
+// and no error: the field is decoded again from its start then.
+func (c *Conn) nextField(hf *HeaderField, fr *FrameHeader, b []byte) ([]byte, error) {
+	pb := b
+
+	b, err := c.dec.nextField(hf, c.block.fields == 0, c.block.fields, b)
+	if err != nil {
+		if errors.Is(err, ErrUnexpectedSize) && !fr.Flags().Has(FlagEndHeaders) {
+			c.block.carry = append(c.block.carry, pb...)
+
+			// Whatever part of the field was decoded is not a field.
+			hf.Reset()
+
+			return nil, nil
+		}
+
+		// The dynamic table cannot be trusted from here on.
+		return nil, NewGoAwayError(CompressionError, err.Error())
+	}
+
+	return b, nil
+}
+
+// skipFields decodes the rest of a fragment for what it does to the dynamic
+// table and drops the fields. It returns reason unless the fragment does not
+// decode.
+func (c *Conn) skipFields(fr *FrameHeader, b []byte, reason error) error {
+	hf := AcquireHeaderField()
+	defer ReleaseHeaderField(hf)
+
+	for len(b) > 0 {
+		var err error
+
+		b, err = c.nextField(hf, fr, b)
+		if err != nil {
+			return err
+		}
+
+		if len(b) == 0 && hf.Empty() {
+			break
+		}
+
+		c.block.fields++
+	}
+
+	return reason
 }
 
 // readStreamOwned runs readStream on a Ctx the caller has acquired and
@@ -1577,8 +1666,7 @@ func (c *Conn) handlePing(ping *Ping) {
 func (c *Conn) readStream(fr *FrameHeader, res *fasthttp.Response) (err error) {
 	switch fr.Type() {
 	case FrameHeaders, FrameContinuation:
-		h := fr.Body().(FrameWithHeaders)
-		err = c.readHeader(h.Headers(), res)
+		err = c.readHeader(fr, res)
 	case FrameResetStream:
 		// The server gave up on the stream. Without this the request would sit
 		// there until MaxResponseTime, or forever if that check is disabled.
@@ -1635,42 +1723,46 @@ func (c *Conn) updateWindow(streamID uint32, size int) {
 	c.writeOut(fr)
 }
 
-func (c *Conn) readHeader(b []byte, res *fasthttp.Response) error {
+func (c *Conn) readHeader(fr *FrameHeader, res *fasthttp.Response) error {
 	var err error
 	hf := AcquireHeaderField()
 	defer ReleaseHeaderField(hf)
 
-	dec := c.dec
-
-	var regularSeen bool
+	b := c.block.open(fr)
 
 	for len(b) > 0 {
-		b, err = dec.Next(hf, b)
+		b, err = c.nextField(hf, fr, b)
 		if err != nil {
 			return err
 		}
 
 		if len(b) == 0 && hf.Empty() {
 			// The fragment ended in a dynamic table size update, which
-			// consumes input without producing a field.
+			// consumes input without producing a field, or in the middle of
+			// a field that the next frame completes.
 			break
 		}
 
+		c.block.fields++
+
 		// A response carries exactly one pseudo-header, :status, and it must
-		// come before any regular field.
+		// come before any regular field. A response that gets this wrong is
+		// turned away, but the rest of the fragment is still decoded: the
+		// server's encoder went on, and the next response is decoded against
+		// what this one leaves in the table.
 		// https://httpwg.org/specs/rfc7540.html#rfc.section.8.1.2.4
 		if hf.IsPseudo() {
-			if regularSeen {
-				return errPseudoAfterRegular
+			if c.block.regularSeen {
+				return c.skipFields(fr, b, errPseudoAfterRegular)
 			}
 
 			if !bytes.Equal(hf.KeyBytes(), StringStatus) {
-				return fmt.Errorf("invalid response pseudo-header %q", hf.KeyBytes())
+				return c.skipFields(fr, b, fmt.Errorf("invalid response pseudo-header %q", hf.KeyBytes()))
 			}
 
 			n, err := parseUint(hf.ValueBytes())
 			if err != nil || n < 100 || n > 999 {
-				return errInvalidStatus
+				return c.skipFields(fr, b, errInvalidStatus)
 			}
 
 			res.SetStatusCode(n)
@@ -1678,20 +1770,20 @@ func (c *Conn) readHeader(b []byte, res *fasthttp.Response) error {
 			continue
 		}
 
-		regularSeen = true
+		c.block.regularSeen = true
 
 		if hasUpperCase(hf.KeyBytes()) {
-			return errUpperCaseHeader
+			return c.skipFields(fr, b, errUpperCaseHeader)
 		}
 
 		if isConnectionSpecific(hf.KeyBytes()) {
-			return errConnectionSpecific
+			return c.skipFields(fr, b, errConnectionSpecific)
 		}
 
 		if bytes.Equal(hf.KeyBytes(), StringContentLength) {
 			n, err := parseUint(hf.ValueBytes())
 			if err != nil {
-				return errInvalidContentLength
+				return c.skipFields(fr, b, errInvalidContentLength)
 			}
 
 			res.Header.SetContentLength(n)
